@@ -1,6 +1,350 @@
-import Scico.Model.Estim
+/-
+  Property C17 — norm estimates and parameter estimators satisfy their documented inequalities.
+  ONLY property theorems here (helpers: `Scico.Proofs.Estim`, `Scico.Proofs.EstimNorms`).
+
+  Power iteration is reasoned about on an arbitrary real inner-product space (`ℝⁿ`, `ℂⁿ` with
+  `Re⟨·,·⟩`, block arrays), the operator being any bounded linear map; the closed-form norms on
+  `Fin n → ℝ` for every `n`.
+-/
+import Scico.Proofs.Estim
+import Scico.Proofs.EstimNorms
+import Mathlib.Analysis.InnerProductSpace.Adjoint
+
+set_option linter.unusedSectionVars false
+
 namespace Scico.Props.C17
-open Scico.Estim
-/-- placeholder while the harness is brought up (replaced below) -/
-theorem C17_padmm_none (cA cB : Nat) : padmmEst cA cB none = (cA * cA, cB * cB) := rfl
+open Scico Scico.Estim
+
+/-! ### power iteration / `operator_norm` -/
+
+section power
+
+variable {E F : Type} [NormedAddCommGroup E] [InnerProductSpace ℝ E]
+  [NormedAddCommGroup F] [InnerProductSpace ℝ F]
+
+/-- Every eigenvalue estimate `power_iteration` returns for a bounded operator `B` — for every
+    iteration budget and every non-zero start — is at most `‖B‖`. -/
+theorem C17_rayleigh_le_opNorm (B : E →L[ℝ] E) (maxiter : Nat) (v0 : E) (hv0 : v0 ≠ 0) (mu : ℝ) (v : E)
+    (h : powerIteration (opsOf B) maxiter v0 = .ok (mu, v)) : mu ≤ ‖B‖ := by
+  obtain ⟨_, hp⟩ := powerIteration_ok B maxiter v0 mu v h
+  exact powerLoop_pred B (· ≤ ‖B‖) (norm_nonneg _) (fun w hw => rq_le_opNorm B w hw) maxiter none _
+    (normalize_ne_zero v0 hv0) (by intro m' hm'; cases hm') mu hp
+
+/-- For a Gram operator `B = AᴴA` (what `operator_norm` iterates) every estimate lies in `[0, ‖A‖²]`. -/
+theorem C17_rayleigh_le (B : E →L[ℝ] E) (A : E →L[ℝ] F) (hG : IsGram B A) (maxiter : Nat) (v0 : E)
+    (hv0 : v0 ≠ 0) (mu : ℝ) (v : E) (h : powerIteration (opsOf B) maxiter v0 = .ok (mu, v)) :
+    0 ≤ mu ∧ mu ≤ ‖A‖ ^ 2 := by
+  obtain ⟨_, hp⟩ := powerIteration_ok B maxiter v0 mu v h
+  exact powerLoop_pred B (fun m => 0 ≤ m ∧ m ≤ ‖A‖ ^ 2) ⟨le_refl 0, by positivity⟩
+    (fun w hw => ⟨hG.rq_nonneg w, hG.rq_le w hw⟩) maxiter none _
+    (normalize_ne_zero v0 hv0) (by intro m' hm'; cases hm') mu hp
+
+/-- `operator_norm(A) ≤ ‖A‖₂` for every budget and every non-zero start. -/
+theorem C17_opnorm_le (B : E →L[ℝ] E) (A : E →L[ℝ] F) (hG : IsGram B A) (maxiter : Nat) (v0 : E)
+    (hv0 : v0 ≠ 0) (c : ℝ) (h : operatorNorm (opsOf B) maxiter v0 = .ok c) : 0 ≤ c ∧ c ≤ ‖A‖ := by
+  unfold operatorNorm at h
+  split at h
+  · rename_i mu v hp
+    simp only [Except.ok.injEq] at h
+    subst h
+    obtain ⟨h0, h1⟩ := C17_rayleigh_le B A hG maxiter v0 hv0 mu v hp
+    refine ⟨Real.sqrt_nonneg _, ?_⟩
+    show Real.sqrt mu ≤ ‖A‖
+    calc Real.sqrt mu ≤ Real.sqrt (‖A‖ ^ 2) := Real.sqrt_le_sqrt h1
+      _ = ‖A‖ := Real.sqrt_sq (norm_nonneg _)
+  · cases h
+
+/-- with complete spaces `A.H @ A` (adjoint composed with `A`) is such a Gram operator -/
+theorem C17_gram_adjoint [CompleteSpace E] [CompleteSpace F] (A : E →L[ℝ] F) :
+    IsGram ((ContinuousLinearMap.adjoint A).comp A) A := by
+  intro x y
+  simp [ContinuousLinearMap.adjoint_inner_left]
+
+/-- The estimates are non-decreasing in the iteration budget (Gram operator, same start):
+    the estimate with budget `k+1` never exceeds the one with budget `k+2`. -/
+theorem C17_rayleigh_mono (B : E →L[ℝ] E) (A : E →L[ℝ] F) (hG : IsGram B A) (k : Nat) (v0 : E)
+    (hv0 : v0 ≠ 0) (m m' : ℝ) (v v' : E)
+    (h : powerIteration (opsOf B) (k + 1) v0 = .ok (m, v))
+    (h' : powerIteration (opsOf B) (k + 2) v0 = .ok (m', v')) : m ≤ m' := by
+  obtain ⟨_, hp⟩ := powerIteration_ok B _ v0 m v h
+  obtain ⟨_, hp'⟩ := powerIteration_ok B _ v0 m' v' h'
+  exact hG.powerLoop_mono k _ (normalize_ne_zero v0 hv0) m m' hp hp'
+
+/-- hence `operator_norm` is non-decreasing in the budget too -/
+theorem C17_opnorm_mono (B : E →L[ℝ] E) (A : E →L[ℝ] F) (hG : IsGram B A) (k : Nat) (v0 : E)
+    (hv0 : v0 ≠ 0) (c c' : ℝ) (h : operatorNorm (opsOf B) (k + 1) v0 = .ok c)
+    (h' : operatorNorm (opsOf B) (k + 2) v0 = .ok c') : c ≤ c' := by
+  unfold operatorNorm at h h'
+  split at h
+  · rename_i mu v hp
+    split at h'
+    · rename_i mu' v' hp'
+      simp only [Except.ok.injEq] at h h'
+      subst h; subst h'
+      exact Real.sqrt_le_sqrt (C17_rayleigh_mono B A hG k v0 hv0 mu mu' v v' hp hp')
+    · cases h'
+  · cases h
+
+/-- The zero operator: the estimate is exactly `0` (and the returned vector `0`) for every budget ≥ 1. -/
+theorem C17_zero_exact (k : Nat) (v0 : E) :
+    powerIteration (opsOf (0 : E →L[ℝ] E)) (k + 1) v0 = .ok (0, 0) ∧
+    operatorNorm (opsOf (0 : E →L[ℝ] E)) (k + 1) v0 = .ok 0 := by
+  have hp : powerIteration (opsOf (0 : E →L[ℝ] E)) (k + 1) v0 = .ok (0, 0) := by
+    unfold powerIteration
+    rw [if_neg (by omega)]
+    simp only
+    rw [powerLoop_succ_zero (0 : E →L[ℝ] E) k none _ (by simp)]
+    simp
+  refine ⟨hp, ?_⟩
+  unfold operatorNorm
+  rw [hp]
+  simp
+
+/-- `maxiter < 1` is rejected (`ValueError`), and any budget ≥ 1 yields an estimate -/
+theorem C17_budget (B : E →L[ℝ] E) (maxiter : Nat) (v0 : E) :
+    (maxiter = 0 → powerIteration (opsOf B) maxiter v0 = .error "value") ∧
+    (1 ≤ maxiter → ∃ mu v, powerIteration (opsOf B) maxiter v0 = .ok (mu, v)) := by
+  constructor
+  · rintro rfl; rfl
+  · intro h
+    obtain ⟨k, rfl⟩ : ∃ k, maxiter = k + 1 := ⟨maxiter - 1, by omega⟩
+    unfold powerIteration
+    rw [if_neg (by omega)]
+    simp only
+    obtain ⟨m, hm⟩ := powerLoop_isSome B k none ((opsOf B).sdiv v0 ((opsOf B).norm v0))
+    generalize hq : powerLoop (opsOf B) (k + 1) none ((opsOf B).sdiv v0 ((opsOf B).norm v0)) = q at hm
+    obtain ⟨q1, q2⟩ := q
+    simp only at hm
+    subst hm
+    exact ⟨m, q2, rfl⟩
+
+end power
+
+/-! ### closed-form norms of `Diagonal` and `ScaledIdentity` -/
+
+section norms
+
+variable {n : Nat}
+
+/-- `ord = None / 'fro'`: the Frobenius norm of the matrix `diag d` -/
+theorem C17_diag_norms_fro (d : Fin n → ℝ) :
+    diagNorm .fro (List.ofFn d) = .ok (Real.sqrt (∑ i, ∑ j, (Matrix.diagonal d i j) ^ 2)) ∧
+    diagNorm .none (List.ofFn d) = diagNorm .fro (List.ofFn d) := by
+  rw [diagonal_sq_sum]
+  exact ⟨diagNorm_fro d, rfl⟩
+
+/-- `ord = 'nuc'`: the sum of the singular values of `diag d`, i.e. of the square roots of the
+    eigenvalues (roots of the characteristic polynomial, with multiplicity) of `(diag d)ᵀ diag d` -/
+theorem C17_diag_norms_nuc (d : Fin n → ℝ) :
+    diagNorm .nuc (List.ofFn d) =
+      .ok ((((Matrix.diagonal d).transpose * Matrix.diagonal d).charpoly.roots.map Real.sqrt).sum) := by
+  rw [singular_values_diagonal_sum]
+  exact diagNorm_nuc d
+
+/-- `ord = inf, 1, 2` all return `max |dᵢ|`, which is the maximal absolute row sum, the maximal
+    absolute column sum, and the largest singular value (`‖diag d · x‖ ≤ m‖x‖` with equality at a
+    basis vector) of `diag d`. -/
+theorem C17_diag_norms_max (d : Fin n → ℝ) (hn : 0 < n) :
+    ∃ m, diagNorm .pinf (List.ofFn d) = .ok m ∧ diagNorm (.int 1) (List.ofFn d) = .ok m ∧
+      diagNorm (.int 2) (List.ofFn d) = .ok m ∧
+      IsMaxOf m (List.ofFn fun i => ∑ j, |Matrix.diagonal d i j|) ∧
+      IsMaxOf m (List.ofFn fun j => ∑ i, |Matrix.diagonal d i j|) ∧
+      (∀ x : Fin n → ℝ, ∑ i, (d i * x i) ^ 2 ≤ m ^ 2 * ∑ i, x i ^ 2) ∧
+      (∃ x : Fin n → ℝ, ∑ i, x i ^ 2 = 1 ∧ ∑ i, (d i * x i) ^ 2 = m ^ 2) := by
+  have hne : (List.ofFn fun i => |d i|) ≠ [] := by
+    intro h
+    have := congrArg List.length h
+    simp at this; omega
+  obtain ⟨m, hm⟩ := lmax_isSome hne
+  have hspec := lmax_spec hm
+  have hok := diagNorm_pinf_ok d m hm
+  refine ⟨m, hok, hok, hok, ?_, ?_, ?_, ?_⟩
+  · simpa only [diagonal_row_abs_sum] using hspec
+  · simpa only [diagonal_col_abs_sum] using hspec
+  · intro x
+    apply diag_apply_sq_le
+    intro i
+    exact hspec.2 _ (by simp [List.mem_ofFn])
+  · obtain ⟨k, hk⟩ := (List.mem_ofFn' _ _).1 hspec.1
+    refine ⟨fun i => if i = k then 1 else 0, (diag_apply_basis d k).2, ?_⟩
+    rw [(diag_apply_basis d k).1]
+    simp only at hk
+    rw [hk]
+
+/-- `ord = -inf, -1, -2` all return `min |dᵢ|`: minimal absolute row / column sum and smallest
+    singular value (`‖diag d · x‖ ≥ m‖x‖` with equality at a basis vector). -/
+theorem C17_diag_norms_min (d : Fin n → ℝ) (hn : 0 < n) :
+    ∃ m, diagNorm .ninf (List.ofFn d) = .ok m ∧ diagNorm (.int (-1)) (List.ofFn d) = .ok m ∧
+      diagNorm (.int (-2)) (List.ofFn d) = .ok m ∧
+      IsMinOf m (List.ofFn fun i => ∑ j, |Matrix.diagonal d i j|) ∧
+      IsMinOf m (List.ofFn fun j => ∑ i, |Matrix.diagonal d i j|) ∧
+      (∀ x : Fin n → ℝ, m ^ 2 * ∑ i, x i ^ 2 ≤ ∑ i, (d i * x i) ^ 2) ∧
+      (∃ x : Fin n → ℝ, ∑ i, x i ^ 2 = 1 ∧ ∑ i, (d i * x i) ^ 2 = m ^ 2) := by
+  have hne : (List.ofFn fun i => |d i|) ≠ [] := by
+    intro h
+    have := congrArg List.length h
+    simp at this; omega
+  obtain ⟨m, hm⟩ := lmin_isSome hne
+  have hspec := lmin_spec hm
+  have hok := diagNorm_ninf_ok d m hm
+  obtain ⟨k, hk⟩ := (List.mem_ofFn' _ _).1 hspec.1
+  simp only at hk
+  have hm0 : 0 ≤ m := by rw [← hk]; exact abs_nonneg _
+  refine ⟨m, hok, hok, hok, ?_, ?_, ?_, ?_⟩
+  · simpa only [diagonal_row_abs_sum] using hspec
+  · simpa only [diagonal_col_abs_sum] using hspec
+  · intro x
+    apply diag_apply_sq_ge _ _ _ hm0
+    intro i
+    exact hspec.2 _ (by simp [List.mem_ofFn])
+  · refine ⟨fun i => if i = k then 1 else 0, (diag_apply_basis d k).2, ?_⟩
+    rw [(diag_apply_basis d k).1, hk]
+
+/-- The entrywise-computable matrix norms (`fro`, `±inf`, `±1`) of the dense matrix `diag d`
+    (model `matNorm`, tied to `MatrixOperator.norm` / numpy) coincide with `Diagonal.norm`. -/
+theorem C17_diag_norms_dense (d : Fin n → ℝ) (hn : 0 < n) (o : Ord)
+    (ho : o = .fro ∨ o = .none ∨ o = .pinf ∨ o = .ninf ∨ o = .int 1 ∨ o = .int (-1)) :
+    (matNorm o (absRows (Matrix.diagonal d)) (absCols (Matrix.diagonal d))).map Except.ok =
+      some (diagNorm o (List.ofFn d)) := by
+  have hne : (List.ofFn fun i => |d i|) ≠ [] := by
+    intro h
+    have := congrArg List.length h
+    simp at this; omega
+  have hfro : lsum ((absRows (Matrix.diagonal d)).map fun r => lsum (r.map fun x => x * x)) = ∑ i, d i ^ 2 := by
+    simp only [absRows, List.map_ofFn, Function.comp, lsum_ofFn]
+    rw [← diagonal_sq_sum]
+    apply Finset.sum_congr rfl; intro i _
+    apply Finset.sum_congr rfl; intro j _
+    rw [abs_mul_abs_self]; ring
+  rcases ho with rfl | rfl | rfl | rfl | rfl | rfl
+  · simp only [matNorm, hfro, Option.map_some, diagNorm_fro, hasSqrt_real]
+  · simp only [matNorm, hfro, Option.map_some, diagNorm_none, diagNorm_fro, hasSqrt_real]
+  · obtain ⟨m, hm⟩ := lmax_isSome hne
+    simp only [matNorm, absRows_diagonal_sums, hm, Option.map_some, diagNorm_pinf_ok d m hm]
+  · obtain ⟨m, hm⟩ := lmin_isSome hne
+    simp only [matNorm, absRows_diagonal_sums, hm, Option.map_some, diagNorm_ninf_ok d m hm]
+  · obtain ⟨m, hm⟩ := lmax_isSome hne
+    simp only [matNorm, absCols_diagonal_sums, hm, Option.map_some, diagNorm_one, diagNorm_pinf_ok d m hm]
+  · obtain ⟨m, hm⟩ := lmin_isSome hne
+    simp only [matNorm, absCols_diagonal_sums, hm, Option.map_some, diagNorm_neg_one, diagNorm_ninf_ok d m hm]
+
+/-- any other `ord` (0, 3, unknown strings, …) is rejected with `ValueError` by both classes -/
+theorem C17_diag_norms_reject (d : List ℝ) (ac sN nN : ℝ) (k : Int) (hk : k ≠ 1 ∧ k ≠ 2 ∧ k ≠ -1 ∧ k ≠ -2) :
+    diagNorm (.int k) d = .error "value" ∧ diagNorm .other d = .error "value" ∧
+    scaledIdNorm (.int k) ac sN nN = .error "value" ∧ scaledIdNorm .other ac sN nN = .error "value" := by
+  obtain ⟨h1, h2, h3, h4⟩ := hk
+  refine ⟨?_, rfl, ?_, rfl⟩
+  · unfold diagNorm diagKey
+    split <;> simp_all
+  · unfold scaledIdNorm
+    split <;> simp_all
+
+/-- `ScaledIdentity(c, N).norm(ord)` equals `Diagonal` of the constant diagonal `(c,…,c)` for every order -/
+theorem C17_scaledid_norms (c : ℝ) (N : Nat) (hN : 0 < N) (o : Ord) :
+    scaledIdNorm o |c| (Real.sqrt N) N = diagNorm o (List.ofFn fun _ : Fin N => c) := by
+  have hne : (List.ofFn fun _ : Fin N => |c|) ≠ [] := by
+    intro h
+    have := congrArg List.length h
+    simp at this; omega
+  have hmax : lmax (List.ofFn fun _ : Fin N => |c|) = some |c| := by
+    obtain ⟨m, hm⟩ := lmax_isSome hne
+    obtain ⟨k, hk⟩ := (List.mem_ofFn' _ _).1 (lmax_spec hm).1
+    rw [hm, ← hk]
+  have hmin : lmin (List.ofFn fun _ : Fin N => |c|) = some |c| := by
+    obtain ⟨m, hm⟩ := lmin_isSome hne
+    obtain ⟨k, hk⟩ := (List.mem_ofFn' _ _).1 (lmin_spec hm).1
+    rw [hm, ← hk]
+  have hfro : diagNorm .fro (List.ofFn fun _ : Fin N => c) = .ok (|c| * Real.sqrt N) := by
+    rw [diagNorm_fro]
+    congr 1
+    rw [Finset.sum_const, Finset.card_univ, Fintype.card_fin, nsmul_eq_mul, mul_comm,
+      Real.sqrt_mul (sq_nonneg c), Real.sqrt_sq_eq_abs]
+  have hnuc : diagNorm .nuc (List.ofFn fun _ : Fin N => c) = .ok (|c| * N) := by
+    rw [diagNorm_nuc]
+    congr 1
+    rw [Finset.sum_const, Finset.card_univ, Fintype.card_fin, nsmul_eq_mul, mul_comm]
+  have hp := diagNorm_pinf_ok (fun _ : Fin N => c) |c| hmax
+  have hq := diagNorm_ninf_ok (fun _ : Fin N => c) |c| hmin
+  unfold scaledIdNorm
+  split
+  · rw [diagNorm_none, hfro]
+  · rw [hfro]
+  · rw [hnuc]
+  · rw [hp]
+  · rw [hq]
+  · rw [diagNorm_neg_one, hq]
+  · rw [diagNorm_neg_two, hq]
+  · rw [diagNorm_one, hp]
+  · rw [diagNorm_two, hp]
+  · rename_i h1 h2 h3 h4 h5 h6 h7 h8 h9
+    cases o with
+    | none => exact absurd rfl h1
+    | fro => exact absurd rfl h2
+    | nuc => exact absurd rfl h3
+    | pinf => exact absurd rfl h4
+    | ninf => exact absurd rfl h5
+    | other => rfl
+    | int k =>
+      have hk : k ≠ 1 ∧ k ≠ 2 ∧ k ≠ -1 ∧ k ≠ -2 :=
+        ⟨fun h => h8 (by rw [h]), fun h => h9 (by rw [h]), fun h => h6 (by rw [h]), fun h => h7 (by rw [h])⟩
+      exact ((C17_diag_norms_reject _ 0 0 0 k hk).1).symm
+
+end norms
+
+/-! ### parameter estimators -/
+
+/-- `PDHG.estimate_parameters` with a safety factor: `τσc² = 1/factor` — hence `< 1` for every
+    `factor > 1` (default 1.01) — `σ = ratio·τ`, both positive; `c` is the norm estimate used. -/
+theorem C17_pdhg_est (c ratio fac : ℝ) (hc : 0 < c) (hr : 0 < ratio) (hf : 1 < fac) :
+    let p := pdhgEst c ratio (some fac)
+    p.1 * p.2 * c ^ 2 = 1 / fac ∧ p.1 * p.2 * c ^ 2 < 1 ∧ p.2 = ratio * p.1 ∧ 0 < p.1 ∧ 0 < p.2 := by
+  intro p
+  have h0 : 0 < fac := by linarith
+  have hprod := pdhgEst_prod c ratio fac hc hr h0
+  refine ⟨hprod, ?_, rfl, (pdhgEst_pos c ratio fac hc hr h0).1, (pdhgEst_pos c ratio fac hc hr h0).2⟩
+  show (pdhgEst c ratio (some fac)).1 * (pdhgEst c ratio (some fac)).2 * c ^ 2 < 1
+  rw [hprod, div_lt_one h0]
+  exact hf
+
+/-- factor disabled (`None`, replaced by `1.0`): `τσc² = 1` and `σ = ratio·τ` -/
+theorem C17_pdhg_est_disabled (c ratio : ℝ) (hc : 0 < c) (hr : 0 < ratio) :
+    let p := pdhgEst c ratio none
+    p.1 * p.2 * c ^ 2 = 1 ∧ p.2 = ratio * p.1 ∧ pdhgEst c ratio none = pdhgEst c ratio (some 1) := by
+  intro p
+  have h : pdhgEst c ratio none = pdhgEst c ratio (some 1) := rfl
+  refine ⟨?_, rfl, h⟩
+  show (pdhgEst c ratio none).1 * (pdhgEst c ratio none).2 * c ^ 2 = 1
+  rw [h, pdhgEst_prod c ratio 1 hc hr one_pos]
+  norm_num
+
+/-- `ProximalADMM.estimate_parameters`: `μ > c_A²`, `ν > c_B²` for `factor > 1` and positive norm
+    estimates; the bare squares when the factor is disabled. -/
+theorem C17_padmm_est (cA cB fac : ℝ) (hA : 0 < cA) (hB : 0 < cB) (hf : 1 < fac) :
+    cA ^ 2 < (padmmEst cA cB (some fac)).1 ∧ cB ^ 2 < (padmmEst cA cB (some fac)).2 ∧
+    padmmEst cA cB none = (cA ^ 2, cB ^ 2) := by
+  simp only [padmmEst]
+  refine ⟨?_, ?_, ?_⟩
+  · nlinarith [mul_pos hA hA]
+  · nlinarith [mul_pos hB hB]
+  · simp [sq]
+
+/-- `NonLinearPADMM.estimate_parameters` applies the same rule to the norm estimates of the two
+    partial Jacobians `J_x H(x,z)`, `J_z H(x,z)`. -/
+theorem C17_nlpadmm_est (cJx cJz fac : ℝ) (hx : 0 < cJx) (hz : 0 < cJz) (hf : 1 < fac) :
+    cJx ^ 2 < (padmmEst cJx cJz (some fac)).1 ∧ cJz ^ 2 < (padmmEst cJx cJz (some fac)).2 :=
+  ⟨(C17_padmm_est cJx cJz fac hx hz hf).1, (C17_padmm_est cJx cJz fac hx hz hf).2.1⟩
+
+/-! ### non-vacuity -/
+
+-- default PDHG parameters for an estimate c = 2, ratio 4
+example : (1 : ℝ) / 1.01 < 1 := by norm_num
+example : let p := pdhgEst (2 : ℝ) 4 (some 1.01); p.1 * p.2 * 2 ^ 2 < 1 :=
+  (C17_pdhg_est 2 4 1.01 (by norm_num) (by norm_num) (by norm_num)).2.1
+example : (padmmEst (3 : ℝ) 1 (some 1.01)).1 = 1.01 * (3 * 3) := rfl
+-- closed forms on diag(1,-3,2)
+example : diagNorm .nuc (List.ofFn ![(1 : ℝ), -3, 2]) = .ok 6 := by
+  rw [diagNorm_nuc]; simp [Fin.sum_univ_succ]; norm_num
+-- a Gram operator exists on ℝ (A = 2·id, B = 4·id) and the identity is its own Gram operator
+example : IsGram (ContinuousLinearMap.id ℝ ℝ) (ContinuousLinearMap.id ℝ ℝ) := fun _ _ => rfl
+
 end Scico.Props.C17
